@@ -153,3 +153,130 @@ def lcell_int(v, t=None):
     c.type = t or CT.INTEGER
     c.value = v
     return c
+
+
+# ---------------------------------------------------------------------------------------------------------------
+# devices and a straight-line instruction runner (the machine side of generator lemmas)
+
+from qvm.cpu import QVM_DEVICES
+
+
+class RecordingImpl:
+    """peripherals stub: records every device interaction, answers input from a script"""
+
+    def __init__(self, input_lines=()):
+        self.trace = []
+        self.input_lines = list(input_lines)
+        self.n_input = 0
+
+    def terminal_print(self, text):
+        self.trace.append(('print', text))
+
+    def terminal_input(self, same_line):
+        self.trace.append(('input', same_line))
+        line = self.input_lines[self.n_input]
+        self.n_input += 1
+        return line
+
+    def __getattr__(self, name):
+        if name.startswith('__'):
+            raise AttributeError(name)
+
+        def rec(*args):
+            self.trace.append((name,) + args)
+        return rec
+
+
+def attach_devices(cpu, impl):
+    from qvm import machine as M
+    cpu.devices = {}
+    cpu.device_by_id = {}
+    for name, cls in (('time', M.TimeDevice), ('rng', M.RngDevice), ('memory', M.MemoryDevice),
+                      ('terminal', M.TerminalDevice), ('pcspkr', M.PcSpeakerDevice), ('data', M.DataDevice),
+                      ('fs', M.FileSystemDevice)):
+        dev = object.__new__(cls)
+        dev.id = QVM_DEVICES[name]['id']
+        dev.cpu = cpu
+        dev.impl = impl
+        dev.cur_op = None
+        if name == 'terminal':
+            dev.mode = 0
+        if name == 'rng':
+            dev.last_rnd = None
+        if name == 'data':
+            dev.data_part = 0
+            dev.data_idx = 0
+        cpu.devices[name] = dev
+        cpu.device_by_id[dev.id] = dev
+    return cpu
+
+
+def exec_name(op):
+    for a, b in (('%', '_integer'), ('&', '_long'), ('!', '_single'), ('#', '_double'), ('$', '_string'),
+                 ('@', '_reference')):
+        op = op.replace(a, b)
+    return '_exec_' + op
+
+
+def run_instrs(h, cpu, instrs, children=()):
+    """execute a straight-line list of emitted instructions on the real _exec_* bodies.
+    ('_child', k) stands for the code of child expression k: by the child's generator contract it pushes one
+    cell of the child's static type (children[k]).  Returns None or the Outcome of the first instruction that raised."""
+    for ins in instrs:
+        op, *args = ins.final if hasattr(ins, 'final') else ins
+        if op == '_child':
+            src = children[args[0]]
+            c = object.__new__(CellValue)
+            c.type, c.value = src.type, src.value
+            cpu.stack.append(c)
+            continue
+        if op.startswith('_'):
+            continue
+        if op == 'push$':
+            out = h.call(cpu._exec_push_string, args[0][1:-1])
+        elif op == 'io':
+            dev, opn = args
+            out = h.call(cpu._exec_io, QVM_DEVICES[dev]['id'], QVM_DEVICES[dev]['ops'][opn])
+        else:
+            f = getattr(cpu, exec_name(op), None)
+            if f is None:
+                raise AssertionError(f'no exec function for emitted op {op}')
+            out = h.call(f, *args)
+        if not out.returned:
+            return out
+    return None
+
+
+class ChildInstr:
+    """placeholder pseudo-instruction standing for the code of child k (the child generator's contract)"""
+
+    def __init__(self, k):
+        self.k = k
+        self.final = ('_child', k)
+        self.op = None
+        self.args = (k,)
+        self.type_char = ''
+        self.scope = None
+
+    def __repr__(self):
+        return f"('_child', {self.k})"
+
+
+class ChildGen:
+    """code-generator proxy: gen_code_for_node(child) emits the placeholder of the child's contract"""
+
+    def __init__(self, real, children):
+        self.real = real
+        self.children = list(children)
+        self.debug_info_enabled = False
+        self.compilation = getattr(real, 'compilation', None)
+
+    def gen_code_for_node(self, node, code):
+        for k, c in enumerate(self.children):
+            if c is node:
+                code._instrs.append(ChildInstr(k))
+                return
+        raise AssertionError(f'generator asked for code of a node that is not a declared child: {node!r}')
+
+    def __getattr__(self, name):
+        return getattr(self.real, name)
